@@ -578,7 +578,7 @@ impl Prop for C04 {
                     }
                     let sig = if boundary {
                         "C04/edge-oriented-boundary-turn".to_string()
-                    } else if prevs.len() >= 2 && !case.alg.is_yens() {
+                    } else if prevs.len() >= 2 && heuristic_in_use(&case.alg, None) && !case.alg.is_yens() {
                         "C04/reopened-vertex/restricted-turn-on-route".to_string()
                     } else {
                         format!("{}/route-takes-restricted-turn", prefix)
